@@ -396,6 +396,8 @@ func TestC15Concurrent(t *testing.T) {
 			}
 		}
 		hC15.Class("concurrent-round")
-		hC15.NonTrivial(hx.FP("concurrent", r), func() string { return fmt.Sprintf("concurrent round %d: %d goroutines x 3 coalesce+resolve\n%s", r, G, cases[0].Describe()) })
+		hC15.NonTrivial(hx.FP("concurrent", r), func() string {
+			return fmt.Sprintf("concurrent round %d: %d goroutines x 3 coalesce+resolve\n%s", r, G, cases[0].Describe())
+		})
 	}
 }
